@@ -235,7 +235,8 @@ type WorkerOpts struct {
 	MaxViol   int
 	HashFile  string
 	HashLog   string
-	RaceCheck func() int // returns number of race reports so far (race build)
+	Known     map[string]bool // signatures of open known findings: recorded once, never minimised, never counted towards MaxViol
+	RaceCheck func() int      // returns number of race reports so far (race build)
 }
 
 // RunWorker executes runs [From,To) of h.
@@ -244,6 +245,7 @@ func RunWorker(h Harness, o WorkerOpts) (res WorkerResult) {
 	res = WorkerResult{Property: h.ID(), From: o.From, To: o.To, Counts: map[string]int64{}, Race: simrt.RaceEnabled}
 	st := &Stats{Counts: res.Counts}
 	seen := map[string]bool{}
+	nunknown := 0
 	hashes := map[uint64]bool{}
 	nontrivial := map[uint64]bool{}
 	defer func() {
@@ -328,14 +330,26 @@ func RunWorker(h Harness, o WorkerOpts) (res WorkerResult) {
 			return
 		}
 		if seen[v.Signature] {
-			st.Add("violations.repeat", 1)
+			if o.Known[v.Signature] {
+				st.Add("violations.known", 1)
+			} else {
+				st.Add("violations.repeat", 1)
+			}
 			continue
 		}
 		seen[v.Signature] = true
+		if o.Known[v.Signature] {
+			rp := MakeReplay(h, o.Seed, i, sc, cfg, out, v, false)
+			path := WriteReplay(o.OutDir, rp)
+			res.Violations = append(res.Violations, FoundViolation{v.Signature, v.Detail, path, i})
+			st.Add("violations.known", 1)
+			continue
+		}
+		nunknown++
 		rp := Minimise(h, o.Seed, i, sc, cfg, out, v)
 		path := WriteReplay(o.OutDir, rp)
 		res.Violations = append(res.Violations, FoundViolation{rp.Violation.Signature, rp.Violation.Detail, path, i})
-		if len(res.Violations) >= o.MaxViol {
+		if nunknown >= o.MaxViol {
 			res.To = i + 1
 			break
 		}
